@@ -92,7 +92,7 @@ fn main() {
     if cmd != "run" {
         usage();
     }
-    let ctx = Ctx { tier_thorough: tier == "thorough", seed, threads, only, scale, range };
+    let ctx = Ctx { tier_thorough: tier == "thorough", seed, threads, only, scale, range, hang_secs: if id == "C03" { Some(30) } else { None } };
     let mut rep = Report::new();
     let start = std::time::Instant::now();
     match id.as_str() {
